@@ -36,25 +36,25 @@ type World struct {
 
 	Mem, Ast, Tok, Char *packages.Package
 
-	noret map[*ssa.Function]bool
-	catalog *Catalog
-	raise   *Raise
-	tkai    *TKAI
-	value   *Value
-	deref   *Deref
-	posflow *PosFlow
-	printModels map[string]*PrintModel
-	vocab map[*ssa.Function]map[string]bool
-	siteCache []*siteInfo
+	noret                map[*ssa.Function]bool
+	catalog              *Catalog
+	raise                *Raise
+	tkai                 *TKAI
+	value                *Value
+	deref                *Deref
+	posflow              *PosFlow
+	printModels          map[string]*PrintModel
+	vocab                map[*ssa.Function]map[string]bool
+	siteCache            []*siteInfo
 	recording, mayRecord map[*ssa.Function]bool
-	advancing map[*ssa.Function]bool
-	lexDeep     *lbEngine
-	tier string
-	delimDone bool
-	delimCtx  int
-	delimFail []string
-	mustAdv     map[*ssa.Function]bool
-	mustAdvLeak map[*ssa.Function]*ssa.BasicBlock
+	advancing            map[*ssa.Function]bool
+	lexDeep              *lbEngine
+	tier                 string
+	delimDone            bool
+	delimCtx             int
+	delimFail            []string
+	mustAdv              map[*ssa.Function]bool
+	mustAdvLeak          map[*ssa.Function]*ssa.BasicBlock
 }
 
 func corePkg(path string) bool {
